@@ -55,7 +55,10 @@ impl StandardLinearModel {
             let mut independent_value = 0.0;
             for (row, constraint) in self.constraints.iter().enumerate() {
                 let coeff = constraint.coefficient(column);
-                if float_ne(coeff, 0.0) {
+                // exact test: a column is a candidate basic column only if every other entry
+                // IS zero; an entry below the comparison tolerance still ties the variable to
+                // its row (0.000005 x + y = 1 with x up to 100000)
+                if coeff != 0.0 {
                     independent_count += 1;
                     independent_row = row;
                     independent_value = constraint.coefficient(column);
